@@ -76,4 +76,23 @@ def notSendFix (types : List ApiType) : Nat → List String → List String
 
 def notSend (types : List ApiType) (name : String) : Bool := (notSendFix types types.length []).contains name
 
+/-! ### which types can hold bytes of the memory map (closure over the regenerated private fields) -/
+
+/-- the payload types: `Bytes` (a slice of the map or an owned copy) and the map itself -/
+def mappedSeed : List String := ["Bytes", "Mmap"]
+
+/-- the owners of the map: holding the database handle borrows nothing from a transaction -/
+def mapOwners : List String := ["DB", "DBInner", "OpenOptions"]
+
+def mappedStep (types : List ApiType) (known : List String) : List String :=
+  (types.filter (fun t => !mapOwners.contains t.name &&
+    (mappedSeed.contains t.name || t.fields.any (fun f => f.any (fun n => mappedSeed.contains n || known.contains n))))).map (·.name)
+
+def mappedFix (types : List ApiType) : Nat → List String → List String
+  | 0, k => k
+  | n + 1, k => mappedFix types n (mappedStep types k)
+
+/-- every type of the crate that (transitively, through its fields) can hold bytes of the map -/
+def mappedTypes (types : List ApiType) : List String := mappedFix types types.length []
+
 end Jamm
